@@ -420,6 +420,21 @@ PROPS['C17']['trusted_base'] = ['Model/Ntv2.lean is a hand-written model of ntv2
                                 'its two interpolation kernels are proved equal to the regenerated text of the code; numpy '
                                 'round/matmul facts measured and modelled (rint(x*1e6)/1e6; left-to-right sums, exact for '
                                 'float32-exact fields)']
+for _p, _m in (('C08', 'GeodeVerif.Proofs.C08b'), ('C12', 'GeodeVerif.Proofs.C12b')):
+    PROPS[_p]['more_proof_modules'] = list(PROPS[_p].get('more_proof_modules', [])) + [_m]
+    PROPS[_p]['angles_modules'] = [_m]
+    PROPS[_p]['needs_angles'] = True
+    PROPS[_p]['rule'] = ('regenerated: every method of the five angle classes (conversions, operators, comparisons, abs, neg, round, %, '
+                         'int, float) is translated from angles.py on every run (translator/angles2lean.py -> GenF/AnglesCls.lean) and '
+                         'proved equal to the hand model for every arithmetic and object (Proofs/C12b.lean, C08b.lean); the module-level '
+                         'leaf conversions and the constructors stay hand-modelled. ' + PROPS[_p]['rule'])
+    PROPS[_p]['trusted_base'] = ['translator/angles2lean.py and its reading of the methods\' Python (header of the file): int/float '
+                                 'mixed arithmetic as ofNat/natDiv, `/` and `%` by a parameter raising ZeroDivisionError at 0, the '
+                                 '`except AttributeError/TypeError: raise TypeError` handlers unreachable for typed operands'] + list(PROPS[_p].get('trusted_base', []))
+PROPS['C08']['required_theorems'] += ['gen_object_conversions', 'gen_missing_conversions']
+PROPS['C12']['required_theorems'] += ['gen_dec', 'gen_add', 'gen_radd', 'gen_sub', 'gen_rsub', 'gen_mul', 'gen_rmul', 'gen_truediv', 'gen_abs',
+                                      'gen_neg', 'gen_eq', 'gen_ne', 'gen_lt', 'gen_gt', 'gen_round', 'gen_toInt', 'gen_toFloat',
+                                      'gen_mod_dms', 'gen_mod_ddm', 'gen_add_sub_dec', 'gen_cmp_dec']
 PROPS['C16']['more_proof_modules'] = ['GeodeVerif.Proofs.C16b']
 PROPS['C16']['required_theorems'] += ['ttable_is_tableQ', 'even_checks', 'odd_checks', 't_table_even', 't_table_odd', 't_table',
                                       't_table_bracket', 't_quantile_exists_unique', 'k_val95_quantile', 'k_val95_even']
